@@ -77,7 +77,7 @@ HARNESS(h_refine) {
             c->rebase();
         } else if (op == 5) {
             c->rebase();
-        } else if (op == 6) {
+        } else if (op == 6 || op == 7) {
             // history: collapse edge (ea,eb) (frees two node slots and two face slots), then split edge (swap_enabled>>8 encodes it) which reuses them
             const long ec = (swap_enabled >> 8) & 0xff, ed = (swap_enabled >> 16) & 0xff;
             auto eo = c->get_edge((unsigned) ea, (unsigned) eb);
@@ -90,6 +90,7 @@ HARNESS(h_refine) {
             auto e2o = c->get_edge((unsigned) ec, (unsigned) ed);
             OI(e2o.has_value());
             if (e2o.has_value()) { edge e2 = e2o.value(); lmr.split_edge(e2, c, to_check); }
+            if (op == 7) c->rebase();      // compaction after a history that leaves a free node slot but no free face slot
         }
     } catch (const mesh_integrity_exception& e) {
         io->status = 1;
